@@ -70,6 +70,20 @@ RECURSIVE JoinStrings(_)
 JoinStrings(vl) == IF Len(vl) < 2 THEN vl
             ELSE IF ~vl[1].f /\ ~vl[2].f THEN JoinStrings(<<SItem(vl[1].s \o vl[2].s)>> \o SubSeq(vl, 3, Len(vl)))
             ELSE <<vl[1]>> \o JoinStrings(Tail(vl))
+(* the label addon (markup/addon/label.py, on for every markup abbreviation): a label that holds an input or textarea (the first one
+   in document order, found by its written name) loses its empty `for`, that element its empty `id`; empty = no value, or a single
+   field without placeholder.  It runs when the label is transformed: the label's attributes are merged, the descendant's are not yet. *)
+IsEmptyAttr(a) == ~Truthy(a) \/ (Len(a.value) = 1 /\ a.value[1].f /\ a.value[1].s = "")
+DropEmpty(attrs, nm) == SelectSeq(attrs, LAMBDA a : ~(Named(a) /\ a.name = nm /\ IsEmptyAttr(a)))
+RECURSIVE FixFirstInput(_)
+FixFirstInput(kids) ==
+    IF kids = <<>> THEN [k |-> <<>>, found |-> FALSE]
+    ELSE LET h == Head(kids) IN
+         IF h.name \in {"input", "textarea"}
+         THEN [k |-> <<(IF h.hasattrs /\ h.attrs # <<>> THEN [h EXCEPT !.attrs = DropEmpty(@, "id")] ELSE h)>> \o Tail(kids), found |-> TRUE]
+         ELSE LET inner == FixFirstInput(h.kids) IN
+              IF inner.found THEN [k |-> <<[h EXCEPT !.kids = inner.k]>> \o Tail(kids), found |-> TRUE]
+              ELSE LET rest == FixFirstInput(Tail(kids)) IN [k |-> <<h>> \o rest.k, found |-> rest.found]
 RECURSIVE TNodes(_, _)
 \* parent: the (resolved) name of the closest enclosing node, "" at the top level and below a text node
 TNode(n, parent) ==
@@ -79,8 +93,10 @@ TNode(n, parent) ==
         name == IF noName /\ hasAttrs
                 THEN (IF ElementMap(lp) # "" THEN ElementMap(lp) ELSE IF lp \in InlineElements THEN "span" ELSE "div")
                 ELSE IF noName THEN "" ELSE n.name
-        merged == IF hasAttrs THEN MergeA(n.attrs, <<>>) ELSE <<>>
-    IN [n EXCEPT !.name = name, !.attrs = [i \in 1..Len(merged) |-> [merged[i] EXCEPT !.value = JoinStrings(@)]], !.kids = TNodes(n.kids, name)]
+        merged0 == IF hasAttrs THEN MergeA(n.attrs, <<>>) ELSE <<>>
+        lab == IF name = "label" THEN FixFirstInput(n.kids) ELSE [k |-> n.kids, found |-> FALSE]
+        merged == IF lab.found THEN DropEmpty(merged0, "for") ELSE merged0
+    IN [n EXCEPT !.name = name, !.attrs = [i \in 1..Len(merged) |-> [merged[i] EXCEPT !.value = JoinStrings(@)]], !.kids = TNodes(lab.k, name)]
 TNodes(items, parent) == IF items = <<>> THEN <<>> ELSE <<TNode(Head(items), parent)>> \o TNodes(Tail(items), parent)
 Transformed == LET c == Converted IN IF c.kind = "ok" THEN TNodes(c.tree, "") ELSE <<>>
 
